@@ -340,35 +340,70 @@ func init() {
 					hasLong = true
 				}
 			}
+			cmp := func(i int, g logRec, w *refRec) {
+				if w.any {
+					return
+				}
+				if w.either && (g.level == hclog.Debug || g.level == hclog.Error) {
+					// accepted
+				} else if g.level != w.level {
+					x.Fail("S", "line %d logged at %s, expected %s [%s]", i+1, g.level, w.level, desc)
+				}
+				if g.msg != w.msg {
+					x.Fail("S", "line %d logged with message %q, expected %q [%s]", i+1, g.msg, w.msg, desc)
+				}
+				if w.isJSON {
+					gk := map[string]string{}
+					for j := 0; j+1 < len(g.args); j += 2 {
+						gk[fmt.Sprint(g.args[j])] = fmt.Sprint(g.args[j+1])
+					}
+					if _, ok := gk["timestamp"]; !ok {
+						x.Fail("S", "line %d: hclog record without timestamp field [%s]", i+1, desc)
+					}
+					delete(gk, "timestamp")
+					if fmt.Sprint(gk) != fmt.Sprint(w.kv) {
+						x.Fail("S", "line %d: key/value fields %v, expected %v [%s]", i+1, gk, w.kv, desc)
+					}
+				}
+			}
 			if !hasLong {
 				if len(recs) != len(wantRecs) {
 					x.Fail("S", "%d log records for %d stderr lines [%s]", len(recs), len(wantRecs), desc)
 				} else {
 					for i, w := range wantRecs {
-						g := recs[i]
-						if w.any {
-							continue
+						cmp(i, recs[i], w)
+					}
+				}
+			} else {
+				// over-long lines produce one record per buffer-sized piece (how many is bufio's business): the
+				// lines before the first and after the last over-long line are aligned from both ends, and the
+				// records in between must carry, piece by piece, exactly the text of the lines in between
+				first, last := -1, -1
+				for i, w := range wantRecs {
+					if w == nil {
+						if first < 0 {
+							first = i
 						}
-						if w.either && (g.level == hclog.Debug || g.level == hclog.Error) {
-							// accepted
-						} else if g.level != w.level {
-							x.Fail("S", "line %d logged at %s, expected %s [%s]", i+1, g.level, w.level, desc)
+						last = i
+					}
+				}
+				tail := len(wantRecs) - 1 - last
+				if len(recs) < first+tail+1 {
+					x.Fail("S", "%d log records for %d stderr lines [%s]", len(recs), len(wantRecs), desc)
+				} else {
+					for i := 0; i < first; i++ {
+						cmp(i, recs[i], wantRecs[i])
+					}
+					for k := 0; k < tail; k++ {
+						cmp(last+1+k, recs[len(recs)-tail+k], wantRecs[last+1+k])
+					}
+					if first == last {
+						var got strings.Builder
+						for _, g := range recs[first : len(recs)-tail] {
+							got.WriteString(g.msg)
 						}
-						if g.msg != w.msg {
-							x.Fail("S", "line %d logged with message %q, expected %q [%s]", i+1, g.msg, w.msg, desc)
-						}
-						if w.isJSON {
-							gk := map[string]string{}
-							for j := 0; j+1 < len(g.args); j += 2 {
-								gk[fmt.Sprint(g.args[j])] = fmt.Sprint(g.args[j+1])
-							}
-							if _, ok := gk["timestamp"]; !ok {
-								x.Fail("S", "line %d: hclog record without timestamp field [%s]", i+1, desc)
-							}
-							delete(gk, "timestamp")
-							if fmt.Sprint(gk) != fmt.Sprint(w.kv) {
-								x.Fail("S", "line %d: key/value fields %v, expected %v [%s]", i+1, gk, w.kv, desc)
-							}
+						if c, _ := errLine(toks[first], B); got.String() != c {
+							x.Fail("S", "the records of over-long line %d do not add up to the line: got %s [%s]", first+1, abbrev([]byte(got.String())), desc)
 						}
 					}
 				}
